@@ -1,5 +1,5 @@
 """C01 — every accepted derive request expands to code that compiles (and documented forms are accepted)."""
-import collections, json, os, random, subprocess, time
+import collections, json, os, random, re, subprocess, time
 from concurrent.futures import ThreadPoolExecutor
 from .. import common, gen, attr
 
@@ -107,11 +107,12 @@ def make_generic(rng, i):
         return fs
 
     def render_fields(shape, fs, vis=""):
+        # field types are bracketed by \x01 .. \x02 so that the compile pool can pass them through `$t:ty` macro fragments
         if shape == "unit":
             return ""
         if shape == "tuple":
-            return "(%s)" % ", ".join("%s%s%s" % (a, vis, ty) for a, _, ty in fs)
-        return " { %s }" % ", ".join("%s%s%s: %s" % (a, vis, n, ty) for a, n, ty in fs)
+            return "(%s)" % ", ".join("%s%s\x01%s\x02" % (a, vis, ty) for a, _, ty in fs)
+        return " { %s }" % ", ".join("%s%s%s: \x01%s\x02" % (a, vis, n, ty) for a, n, ty in fs)
 
     used = set()
 
@@ -283,6 +284,24 @@ def make_access(rng, i):
     return src, {"kind": "access/" + kind, "traits": traits, "lifetimes": int("'a" in params), "consts": int("const N: usize" in params), "where": bool(where)}
 
 
+def plain_types(src):
+    return src.replace("\x01", "").replace("\x02", "")
+
+
+def through_macro(src, i):
+    """the same definition as the output of a macro_rules! macro whose `$t:ty` fragments are the field types (the derive
+    then sees each of them inside a None-delimited group)"""
+    tys = []
+
+    def sub(m):
+        tys.append(m.group(1))
+        return "$t%d" % (len(tys) - 1)
+    body = re.sub("\x01(.*?)\x02", sub, src)
+    if not tys:
+        return src
+    return "macro_rules! mg_%d { (%s) => {\n%s\n} }\nmg_%d!(%s);" % (i, ", ".join("$t%d:ty" % k for k in range(len(tys))), body, i, ", ".join(tys))
+
+
 def compile_lib(path, so):
     cmd = ["rustc", "--edition", "2021", "--crate-type", "lib", "--emit=metadata", "--error-format=json", "-C", "debuginfo=0",
            "--extern", "educe=" + so, "--out-dir", os.path.dirname(path), path]
@@ -360,14 +379,17 @@ def main(tier):
     gdefs, gmeta = [], {}
     for i in range(n_generic):
         src, meta = make_generic(rng, i) if i % 5 else make_access(rng, i)
-        gdefs.append((i, src))
+        gdefs.append((i, plain_types(src)))
         gmeta[i] = meta
+        gmeta[i]["compiled_src"] = through_macro(src, i) if (i % 7 == 3) else plain_types(src)
+        gmeta[i]["through_macro"] = int("macro_rules!" in gmeta[i]["compiled_src"])
     chunk = 500
     for c in range(0, len(gdefs), chunk):
         parts = ["#![allow(unused_imports)]\nuse educe::Educe;\n" + METHODS]
         cur = parts[0].count("\n") + 1
         line_map, by_id = [], {}
         for i, src in gdefs[c:c + chunk]:
+            src = gmeta[i]["compiled_src"]
             m = "pub mod g%d {\n use educe::Educe;\n%s\n}\n" % (i, src)
             n = m.count("\n")
             line_map.append((cur, cur + n, i))
@@ -411,7 +433,7 @@ def main(tier):
         tie["broken"].append("B4: " + str(e)[:400])
     kinds = collections.Counter(m["kind"] for m in gmeta.values())
     tie["extra"]["generic_kinds"] = dict(kinds)
-    tie["extra"]["generic_dimensions"] = {k: sum(1 for m in gmeta.values() if m.get(k)) for k in ("lifetimes", "consts", "where", "raw_ident", "repr")}
+    tie["extra"]["generic_dimensions"] = {k: sum(1 for m in gmeta.values() if m.get(k)) for k in ("lifetimes", "consts", "where", "raw_ident", "repr", "through_macro")}
     tie["extra"]["diagnostics"] = dict(hist)
     tie["failing"] = tie["failing"][:4]
     tie["broken"] = tie["broken"][:4]
